@@ -697,9 +697,15 @@ impl rustc_driver::Callbacks for Cb {
         for id in tcx.hir_crate_items(()).definitions() {
             let did = id.to_def_id();
             match tcx.def_kind(id) {
-                DefKind::Const { .. } => {
+                DefKind::Const { .. } | DefKind::AssocConst { .. } => {
                     let ty = tcx.type_of(did).instantiate_identity().skip_norm_wip();
                     let mut entry = vec![("id", s(tcx.def_path_str(did))), ("ty", s(format!("{ty}")))];
+                    // the initialiser as a resolved expression tree (tables of names and variants)
+                    if let Some(hbody) = tcx.hir_maybe_body_owned_by(id) {
+                        let typeck = tcx.typeck(id);
+                        let mv = MatchV { tcx, typeck, out: vec![], ifs: vec![] };
+                        entry.push(("tree", mv.hexpr(hbody.value, 6)));
+                    }
                     if tcx.generics_of(did).count() == 0 {
                         if let Ok(raw) = tcx.const_eval_poly_to_alloc(did) {
                             let alloc = tcx.global_alloc(raw.alloc_id).unwrap_memory();
